@@ -60,7 +60,8 @@ def projSet (scn : Scn) (o : OSet) : String :=
     else if c.type = "Succeeded" then some { c with obsGen := 0 }
     else some c
   -- uids are identities of incarnations (history): status.remotePhases is compared by name
-  osetStr { o with conds := conds, remotePhases := o.remotePhases.map fun r => (r.1, "") }
+  -- (of an archived revision the list is frozen at archival like the conditions: history)
+  osetStr { o with conds := conds, remotePhases := if archived then [] else o.remotePhases.map fun r => (r.1, "") }
 
 /-- see `projPhase` in conv.go: the phase object's generation counts PKO's own pause patches
 (history); a condition is compared by whether it refers to the current generation. -/
